@@ -172,10 +172,11 @@ Definition angle_ge (x y : Q) (theta : Z) : bool :=
   match udir theta with
   | None => false
   | Some u =>
-    let same_half := if (theta <=? 180)%Z then Qle_bool 0 y else Qltb y 0 in
-    let test := let sc := sign_q3 (cross3 u x y) in
-                (sc =? 1)%Z || ((sc =? 0)%Z && (sign_q3 (dot3 u x y) =? 1)%Z) in
-    if (theta <=? 180)%Z then (Qltb y 0) || (same_half && test) else same_half && test
+    (* counter-clockwise of (or on) the boundary direction, within the same half plane *)
+    let test (_ : unit) := let sc := sign_q3 (cross3 u x y) in
+                if (sc =? 1)%Z then true else if (sc =? 0)%Z then (sign_q3 (dot3 u x y) =? 1)%Z else false in
+    if (theta <=? 180)%Z then (if Qltb y 0 then true else test tt)
+    else (if Qltb y 0 then test tt else false)
   end.
 
 (* global sector index in [0, 360/dphi): number of boundaries j*dphi, 0 < j < 360/dphi, that are <= angle *)
@@ -230,7 +231,7 @@ Definition id_map (sh : shape) (c : cell) : Z := if in_grid sh c then flat_index
 Definition lam_of (n k : Z) : Q := inject_Z (2 * k + 1) / inject_Z (2 * n).
 Definition point_lam (start d : vec) (n k : Z) : vec :=
   let '(s1, s2, s3) := start in let '(d1, d2, d3) := d in
-  let l := lam_of n k in (s1 + d1 * l, s2 + d2 * l, s3 + d3 * l).
+  let l := lam_of n k in (Qred (s1 + d1 * l), Qred (s2 + d2 * l), Qred (s3 + d3 * l)).
 Definition sample_points_lam (start d : vec) (n : Z) : list vec :=
   map (point_lam start d n) (zrange (Z.to_nat n)).
 
